@@ -202,7 +202,11 @@ def check(case, acc, tmp):
                 else:
                     acc.count('clause:predicate-vs-idlist')
         # unknown id
-        for form, coll in (('list', [ids[0], 'nope']), ('set', {'nope'})):
+        longest = max(ids, key=len)
+        for form, coll in (('list', [ids[0], 'nope']), ('set', {'nope'}),
+                           # unknown ids that merely extend a stored id of maximal width
+                           ('list_ext', [longest + 'x']), ('tuple_ext', (ids[-1], longest + '2')),
+                           ('ndarray_ext', np.array([longest + ' ']))):
             for inpl in (False, True):
                 t, _ = make(case)
                 before = O.content(t)
